@@ -120,7 +120,7 @@ func (g *gen) reflScalar(m *Message, f *Field) {
 	n := m.GoName
 	isOneof := f.Card == "oneof"
 	cur := "exp." + f.GoName
-	g.p("func VH_C08_%s_%s() {", n, f.GoName)
+	g.p("func vhC08_%s_%s(op int) {", n, f.GoName)
 	g.reflPre(m, f, 0)
 	if isOneof {
 		g.p("\tvar cur %s", scalarGo(f))
@@ -134,7 +134,7 @@ func (g *gen) reflScalar(m *Message, f *Field) {
 	if isOneof {
 		present = "sel"
 	}
-	g.p("\tswitch vhChoice(\"op\", 6) {")
+	g.p("\tswitch op {")
 	g.p("\tcase 0: // Has, Get, getter: read-only and consistent with the struct")
 	g.p("\t\tvhAssert(\"has\", m.Has(fd) == (%s))", present)
 	g.p("\t\tgot := m.Get(fd)")
@@ -192,12 +192,18 @@ func (g *gen) reflScalar(m *Message, f *Field) {
 	g.p("\tvhAssertEq_%s(\"state\", exp, x)", n)
 	g.p("}")
 	g.p("")
+	for k, on := range []string{"read","set","clear","mutable","newfield","range"} {
+		if on == "" {
+			continue
+		}
+		g.p("func VH_C08_%s_%s_%s() { vhC08_%s_%s(%d) }", n, f.GoName, on, n, f.GoName, k)
+	}
+	g.p("")
 }
-
 func (g *gen) reflMessage(m *Message, f *Field) {
 	n := m.GoName
 	isOneof := f.Card == "oneof"
-	g.p("func VH_C08_%s_%s() {", n, f.GoName)
+	g.p("func vhC08_%s_%s(op int) {", n, f.GoName)
 	g.reflPre(m, f, 1)
 	if isOneof {
 		g.p("\tvar curx, cure *%s", f.MsgName)
@@ -217,7 +223,7 @@ func (g *gen) reflMessage(m *Message, f *Field) {
 		}
 		return fmt.Sprintf("exp.%s = %s", f.GoName, v)
 	}
-	g.p("\tswitch vhChoice(\"op\", 6) {")
+	g.p("\tswitch op {")
 	g.p("\tcase 0: // Has / Get / getter")
 	if isOneof {
 		g.p("\t\tvhAssert(\"has\", m.Has(fd) == sel)")
@@ -291,12 +297,18 @@ func (g *gen) reflMessage(m *Message, f *Field) {
 	g.p("\tvhAssertEq_%s(\"state\", exp, x)", n)
 	g.p("}")
 	g.p("")
+	for k, on := range []string{"read","set","clear","mutable","newfield","range"} {
+		if on == "" {
+			continue
+		}
+		g.p("func VH_C08_%s_%s_%s() { vhC08_%s_%s(%d) }", n, f.GoName, on, n, f.GoName, k)
+	}
+	g.p("")
 }
-
 func (g *gen) reflList(m *Message, f *Field) {
 	n := m.GoName
 	isMsg := f.Kind == "message"
-	g.p("func VH_C08_%s_%s() {", n, f.GoName)
+	g.p("func vhC08_%s_%s(op int) {", n, f.GoName)
 	g.reflPre(m, f, 0)
 	g.p("\told := len(x.%s)", f.GoName)
 	elemSym := func(name string) string {
@@ -311,7 +323,7 @@ func (g *gen) reflList(m *Message, f *Field) {
 		}
 		return fmt.Sprintf("exp.%s = append(exp.%s, %s)", f.GoName, f.GoName, v)
 	}
-	g.p("\tswitch vhChoice(\"op\", 8) {")
+	g.p("\tswitch op {")
 	g.p("\tcase 0: // Has / Get view / getter")
 	g.p("\t\tvhAssert(\"has\", m.Has(fd) == (old > 0))")
 	g.p("\t\tl := m.Get(fd).List()")
@@ -406,8 +418,14 @@ func (g *gen) reflList(m *Message, f *Field) {
 	g.p("\tvhAssertEq_%s(\"state\", exp, x)", n)
 	g.p("}")
 	g.p("")
+	for k, on := range []string{"read","append","setelem","truncate","clear","setlist","newfield","extra"} {
+		if on == "" {
+			continue
+		}
+		g.p("func VH_C08_%s_%s_%s() { vhC08_%s_%s(%d) }", n, f.GoName, on, n, f.GoName, k)
+	}
+	g.p("")
 }
-
 func mapKeyPV(k *Field, v string) string {
 	return pvOf(k, v) + ".MapKey()"
 }
@@ -418,7 +436,7 @@ func (g *gen) reflMap(m *Message, f *Field) {
 	if vMsg && f.Val.MsgName == "" {
 		return
 	}
-	g.p("func VH_C08_%s_%s() {", n, f.GoName)
+	g.p("func vhC08_%s_%s(op int) {", n, f.GoName)
 	g.reflPre(m, f, 0)
 	g.p("\told := len(x.%s)", f.GoName)
 	valSym := func(name string) string {
@@ -429,7 +447,7 @@ func (g *gen) reflMap(m *Message, f *Field) {
 	}
 	g.p("\tk := %s", g.symExpr(f.Key, "\"k\"", g.keyLen))
 	g.p("\t_, had := x.%s[k]", f.GoName)
-	g.p("\tswitch vhChoice(\"op\", 7) {")
+	g.p("\tswitch op {")
 	g.p("\tcase 0: // Has / Get view")
 	g.p("\t\tvhAssert(\"has\", m.Has(fd) == (old > 0))")
 	g.p("\t\tmv := m.Get(fd).Map()")
@@ -523,9 +541,14 @@ func (g *gen) reflMap(m *Message, f *Field) {
 	g.p("\tvhAssertEq_%s(\"state\", exp, x)", n)
 	g.p("}")
 	g.p("")
+	for k, on := range []string{"read","setkey","clearkey","clear","rangemap","newfield","mutablekey"} {
+		if on == "" {
+			continue
+		}
+		g.p("func VH_C08_%s_%s_%s() { vhC08_%s_%s(%d) }", n, f.GoName, on, n, f.GoName, k)
+	}
+	g.p("")
 }
-
-// reflWhole: Range visits exactly the populated fields once each; unknown descriptors panic
 func (g *gen) reflWhole(m *Message) {
 	n := m.GoName
 	g.p("func vhFieldIndex_%s(d protoreflect.FieldDescriptor) int {", n)
@@ -538,7 +561,7 @@ func (g *gen) reflWhole(m *Message) {
 	g.p("\treturn -1")
 	g.p("}")
 	g.p("")
-	g.p("func VH_C08_%s_range() {", n)
+	g.p("func VH_C08_%s__rangeall() {", n)
 	g.p("\tx := &%s{}", n)
 	g.p("\tif vhChoice(\"filled\", 2) == 1 {")
 	g.p("\t\tvhFill_%s(x)", n)
@@ -574,7 +597,7 @@ func (g *gen) reflWhole(m *Message) {
 	g.p("}")
 	g.p("")
 	g.p("// unknown fields through reflection")
-	g.p("func VH_C08_%s_unknown() {", n)
+	g.p("func VH_C08_%s__unknown() {", n)
 	g.p("\tx := &%s{}", n)
 	g.p("\tx.unknownFields = vhBytes(\"u\", 8)")
 	g.p("\tm := x.ProtoReflect()")
